@@ -41,7 +41,10 @@ def obligations(tier):
                      real=["src/mutex.c"], defs=["INIT=%d" % init], unwind=3, cut_loops=SPIN, backend="cadical",
                      encodes=["ABT_mutex_lock", "ABT_mutex_trylock", "ABT_mutex_spinlock", "ABT_mutex_unlock", "ABTI_mutex_lock", "ABTI_mutex_unlock"],
                      bounds="one step; nesting depth any value in [0, INT_MAX)", symbolic="owner (none/caller/other), nesting depth, operation"))
-    o += deepen([x for x in o if x.hooks and '_lock_holder' in x.name], tier)
+    o += deepen([x for x in o if x.hooks and x.name.startswith('lock_ult_lock_holder')], 'thorough', extra_defs=('VR_RESUME_ELSEWHERE',), suffix='_resumed_elsewhere', timeout=400, object_bits=14, mem_gb=10)
+    for x in o:
+        if x.name.endswith('_resumed_elsewhere'): x.tiers = ('quick', 'thorough')
+    o += deepen([x for x in o if x.hooks and '_lock_holder' in x.name and not x.name.endswith('_resumed_elsewhere')], tier)
     return o
 
 MANIFEST_ENTRY = {
